@@ -160,6 +160,49 @@ fn json_depth_ok(v: &J, d: usize) -> bool {
     }
 }
 
+/// a value in the entity/context JSON value format with every escape (`__entity`, `__extn` in the one-argument and the
+/// many-argument form with 0..3 arguments and any function name, `__expr`), nested in sets and records
+fn gen_value_json(t: &mut Tape, depth: usize) -> J {
+    const FNS: [&str; 16] = ["ip", "decimal", "datetime", "duration", "isIpv4", "isInRange", "lessThan", "greaterThanOrEqual", "offset", "durationSince", "toDate", "toTime", "toMilliseconds", "unknown", "foo", ""];
+    let leaf = |t: &mut Tape| -> J {
+        match t.upto(5) {
+            0 => json!(t.range(-3, 3)),
+            1 => json!(t.coin()),
+            2 => json!(*t.pick(&["", "1.2.3.4/8", "1.5", "2024-01-01", "1h", "x"])),
+            3 => json!({"__entity": {"type": *t.pick(&["A", "NS::C", ""]), "id": *t.pick(&["a0", ""])}}),
+            _ => json!({"__expr": *t.pick(&["1 + 1", "principal", ""])}),
+        }
+    };
+    if depth == 0 {
+        return leaf(t);
+    }
+    match t.upto(7) {
+        0 | 1 => {
+            let f = *t.pick(&FNS);
+            json!({"__extn": {"fn": f, "arg": gen_value_json(t, depth - 1)}})
+        }
+        2 | 3 => {
+            let f = *t.pick(&FNS);
+            let n = t.weighted(&[3, 3, 3, 1]);
+            let args: Vec<J> = (0..n).map(|_| gen_value_json(t, depth - 1)).collect();
+            json!({"__extn": {"fn": f, "args": args}})
+        }
+        4 => {
+            let n = t.upto(3);
+            J::Array((0..n).map(|_| gen_value_json(t, depth - 1)).collect())
+        }
+        5 => {
+            let n = t.upto(3);
+            let mut m = serde_json::Map::new();
+            for i in 0..n {
+                m.insert((*t.pick(&["a", "b", "__extn", "__entity", ""])).to_string() + if i == 0 { "" } else { "2" }, gen_value_json(t, depth - 1));
+            }
+            J::Object(m)
+        }
+        _ => leaf(t),
+    }
+}
+
 /// k structural mutations of a JSON document
 fn mutate_json(t: &mut Tape, v: &J) -> J {
     fn paths(v: &J, cur: Vec<String>, out: &mut Vec<Vec<String>>) {
@@ -200,9 +243,13 @@ fn mutate_json(t: &mut Tape, v: &J) -> J {
             let mut tmp = out.clone();
             at(&mut tmp, &q).cloned().unwrap_or(J::Null)
         };
-        let choice = t.upto(10);
+        let choice = t.upto(13);
+        let fresh = gen_value_json(t, 2);
         if let Some(slot) = at(&mut out, &p) {
             match choice {
+                // a literal in the JSON policy format / a value in the entity format, with all escapes
+                10 | 11 => *slot = json!({"Value": fresh}),
+                12 => *slot = fresh,
                 0 => *slot = J::Null,
                 1 => *slot = json!(*t.pick(&[0i64, -1, i64::MAX, i64::MIN])),
                 2 => *slot = json!(t.pick(&["", "x", "__entity", "A::\"a\"", "1.0", "127.0.0.1/33", "\u{0}", "permit(principal,action,resource);"])),
